@@ -418,3 +418,28 @@ META["C14"] = dict(
     level_note="Trusts the reference CORS model. Policy matrix exhaustive (32), applications and requests sampled.",
     design_ref="DESIGN.md §5 C14",
 )
+
+PLANS["C17"] = dict(
+    level="exploration",
+    rule=("message sequences (0-30 messages; empty, LF / CR / CRLF inside, trailing and leading line breaks, blank lines, leading space, leading ':', 'data:' / 'event:' / 'id:' / 'retry:' "
+          "look-alikes, CR-based field injection, arbitrary Unicode, 4 KiB..1 MB messages) x scripted producer schedules (bursts before the first yield, yield or park before each push, random "
+          "mixes, nothing / yields / long pauses / park-then-yield after the last push, completion with a non-empty queue) x three producer kinds (DataStream::new, From<Stream>, stream::queue); "
+          "'park' returns Pending and is woken later from outside on an idle executor turn, 'yield' wakes itself. The response goes through the real router and send into an in-memory writer; "
+          "oracle: 200, chunked, no Content-Length, text/event-stream, strict de-chunking with the terminating chunk and nothing after it, and an independent WHATWG event-stream parser must "
+          "dispatch exactly the messages in order (line breaks normalised to LF), no other event type or id; a task pending with no wake owed is 'stuck'. distinct_nontrivial = distinct "
+          "(producer kind, message-class set, run-length-compressed schedule shape) with at least one Pending or line break."),
+    quick=[R("c17", "rel", 24_000), R("c17", "miri", 24, shards=8, flags={"small": 1}, miriflags="-Zmiri-disable-stacked-borrows")],
+    thorough=[R("c17", "rel", 1_500_000), R("c17", "dbg", 100_000), R("c17", "asan", 100_000), R("c17", "miri", 320, shards=16, flags={"small": 1}, miriflags="-Zmiri-disable-stacked-borrows")],
+    floors={"quick": {"evaluations": 24_000, "distinct": 5_000, "streams_decoded_exactly": 20_000, "idle_turns_with_external_wake": 10_000, "max_queue_depth": 8},
+            "thorough": {"evaluations": 1_500_000, "distinct": 50_000}},
+    assumptions=["Miri runs with -Zmiri-disable-stacked-borrows for this property: QueueStream/Queue::push (producer writes through a raw pointer while poll_next holds &mut self) is rejected by the "
+                 "Stacked Borrows aliasing model at ohkami_lib/src/stream.rs; that is an aliasing-model observation outside what C17 states (delivery and framing), recorded in DESIGN.md §7, and Miri "
+                 "keeps checking everything else (use-after-free, uninitialised reads, invalid pin projections that move)", "messages contain no NUL"],
+)
+META["C17"] = dict(
+    engine="vh c17",
+    technique="runtime monitoring: schedule-scripted executions of the real stream/send code with a counting-waker executor (logical stuck detection), output decoded by an independent de-chunker and WHATWG event-stream parser",
+    level_text="Producer schedules are controlled by a scripted future/stream and recorded; the bytes of every execution are decoded independently and compared with the messages sent.",
+    level_note="Trusts the harness's event-stream parser and de-chunker. Schedules and messages sampled.",
+    design_ref="DESIGN.md §5 C17",
+)
